@@ -207,9 +207,10 @@ def str_and_char_consts(db, body):
             t = blk["term"]
             ops += t.get("args") or []
             if t["k"] == "switch":
-                if t["ty"] == "char":
+                if t["ty"] in ("char", "u8"):
                     for v, _ in t["targets"]:
-                        chars.add(chr(v))
+                        if 0 <= v < 0x110000 and (t["ty"] == "char" or v < 128):
+                            chars.add(chr(v))
             for o in ops:
                 if o.get("k") == "const":
                     if "str" in o:
@@ -218,6 +219,8 @@ def str_and_char_consts(db, body):
                         strs.add(o["pstr"])
                     if "char" in o:
                         chars.add(o["char"])
+                    if o.get("ty") == "u8" and "int" in o and 0 < o["int"] < 128:
+                        chars.add(chr(o["int"]))
     return strs, chars
 
 
